@@ -8,7 +8,7 @@
     [step_self] = the per-action combination; [react_all] = one [react] per occurrence, in order;
     [step_abs] = the abstract per-argument fold; [enc k] = what a Count flag holds after k occurrences. *)
 From ClapModel Require Import Base.Bytes Base.Machine.
-From ClapModel Require Import Parse.Cmd Parse.Build Parse.Valid Parse.Matcher Parse.Errors Parse.Parser ParseProofs.Actions ParseProofs.ActionsLoop.
+From ClapModel Require Import Parse.Cmd Parse.Build Parse.Valid Parse.Matcher Parse.Errors Parse.Parser ParseProofs.Actions ParseProofs.ActionsLoop ParseProofs.ActionsTokens ParseProofs.ActionsTop.
 From Coq Require Import ZArith.
 Open Scope N_scope.
 
@@ -219,3 +219,155 @@ Theorem C07_loop_count_cluster : forall c ch a n pos vaf st,
     groups_of (a_id a) (mt st') = enc (N.of_nat (S n)).
 Proof. exact parse_loop_count_cluster. Qed.
 Print Assumptions C07_loop_count_cluster.
+
+(** ---- tokens -> occurrences: the whole class of flag / cluster / one-value-option lines ----
+    [occurrences c toks] (ParseProofs/ActionsTokens.v) is a declarative scanner: long flags [--flag], short
+    clusters [-xyz] (optionally ended by a one-value option with its value attached, [-ov] / [-o=v]), one-value
+    options [--o=v], [--o v], [-o v] (a separate value does not start with [-]); every token checked not to be a
+    subcommand name.  For every such line and EVERY parser state (skip counter clear), the token loop ends in
+    [LDone] of a state computation [r], and [r] followed by the flush of the pending buffer equals the fold of
+    [react] over the scanned occurrences followed by the flush - errors and panic sites included. *)
+Theorem C07_loop_occurrences : forall c toks os pos vaf st,
+  no_hyphen_args c = true -> ids_ok c -> occurrences c toks = Some os -> fs_skip st = 0 ->
+  exists r : res ps,
+    parse_loop c toks (mkL PSValuesDone pos vaf false) st = (do s <- r; ROk (LDone s)) /\
+    (do s <- r; resolve_pending c s) = (do s <- react_all c os st; resolve_pending c s).
+Proof. exact parse_loop_occurrences. Qed.
+Print Assumptions C07_loop_occurrences.
+
+(** what the scanner returns: command-line occurrences of arguments of the command; no value for a flag,
+    exactly one for an option *)
+Theorem C07_occurrences_scanned : forall c toks os, occurrences c toks = Some os -> Forall (scanned c) os.
+Proof. exact occurrences_scanned. Qed.
+Print Assumptions C07_occurrences_scanned.
+
+(** ---- through the post-loop phases: statements about [parse_top c0 (bin :: toks)] ----
+    [top_class c0 bin toks os] (ParseProofs/ActionsTop.v): the binary name is dropped, [ignore_errors] is off, and on the
+    BUILT command [c = build_self (with_bin c0 bin)] no argument accepts hyphen values / negative numbers and
+    [occurrences c toks = Some os].  A successful parse returns no subcommand and, per argument of [c]: the entry the fold
+    of [react] over the scanned occurrences leaves (labelled CommandLine), or - when the fold leaves none - only
+    what the environment / default phases filled in. *)
+Theorem C07_top_occurrences : forall c0 bin toks os m,
+  let c := build_self (with_bin c0 bin) in
+  top_class c0 bin toks os ->
+  parse_top c0 (bin :: toks) = OOk m ->
+  exists st1, react_all c os ps_new = ROk st1 /\ ms_sub m = None /\
+    forall a, In a (c_args c) ->
+      match get (a_id a) (mt st1) with
+      | Some e => fm_get (a_id a) (ms_args m) = Some e /\ m_source e = Some SCmdLine
+      | None => forall e, fm_get (a_id a) (ms_args m) = Some e ->
+                  m_source e = Some SEnv \/ m_source e = Some SDefault
+      end.
+Proof. exact parse_top_occurrences. Qed.
+Print Assumptions C07_top_occurrences.
+
+(** the same against the abstract per-argument fold [step_abs] *)
+Theorem C07_top_denote : forall c0 bin toks os m a,
+  let c := build_self (with_bin c0 bin) in
+  top_class c0 bin toks os -> parse_top c0 (bin :: toks) = OOk m -> In a (c_args c) ->
+  match fold_left (step_abs c (a_id a)) os None with
+  | Some g => exists e, fm_get (a_id a) (ms_args m) = Some e /\ m_raw e = g /\ m_source e = Some SCmdLine
+  | None => forall e, fm_get (a_id a) (ms_args m) = Some e -> m_source e = Some SEnv \/ m_source e = Some SDefault
+  end.
+Proof. exact parse_top_denote. Qed.
+Print Assumptions C07_top_denote.
+
+(** Count: n occurrences anywhere on the line (any spelling, clustered or not) give min(n,255), for ALL n *)
+Theorem C07_top_count : forall c0 bin toks os m a,
+  let c := build_self (with_bin c0 bin) in
+  top_class c0 bin toks os -> parse_top c0 (bin :: toks) = OOk m -> In a (c_args c) ->
+  count_flag a -> override_free c (a_id a) ->
+  let n := count_occ (a_id a) os in
+  ((0 < n)%nat -> exists e, fm_get (a_id a) (ms_args m) = Some e /\
+       m_raw e = [[n_to_dec (N.min (N.of_nat n) 255)]] /\ m_source e = Some SCmdLine) /\
+  (n = 0%nat -> forall e, fm_get (a_id a) (ms_args m) = Some e -> m_source e = Some SEnv \/ m_source e = Some SDefault).
+Proof. exact parse_top_count. Qed.
+Print Assumptions C07_top_count.
+
+(** Append: all occurrences' values in command-line order, one group per occurrence *)
+Theorem C07_top_append : forall c0 bin toks os m a,
+  let c := build_self (with_bin c0 bin) in
+  top_class c0 bin toks os -> parse_top c0 (bin :: toks) = OOk m -> In a (c_args c) ->
+  a_get_action a = AAppend -> (forall b, In b (c_args c) -> overridden c b (a_id a) = false) ->
+  (0 < count_occ (a_id a) os)%nat ->
+  exists e, fm_get (a_id a) (ms_args m) = Some e /\ m_raw e = occ_groups c (a_id a) os /\ m_source e = Some SCmdLine.
+Proof. exact parse_top_append. Qed.
+Print Assumptions C07_top_append.
+
+(** Set / SetTrue / SetFalse: on a successful parse the LAST occurrence decides *)
+Theorem C07_top_set_last : forall c0 bin toks os1 o os2 m a,
+  let c := build_self (with_bin c0 bin) in
+  top_class c0 bin toks (os1 ++ o :: os2) -> parse_top c0 (bin :: toks) = OOk m -> In a (c_args c) ->
+  set_family a = true -> o_arg o = a -> Forall (unrelated c (a_id a)) os2 ->
+  exists e, fm_get (a_id a) (ms_args m) = Some e /\
+    m_raw e = step_self c SCmdLine a (o_vals c o) None /\ m_source e = Some SCmdLine.
+Proof. exact parse_top_set_last. Qed.
+Print Assumptions C07_top_set_last.
+
+(** ... and without self-override a repeat makes [parse_top] answer ArgumentConflict *)
+Theorem C07_top_set_repeat_conflict : forall c0 bin toks os1 o os2 st vals,
+  let c := build_self (with_bin c0 bin) in
+  top_class c0 bin toks (os1 ++ o :: os2) -> valid (with_bin c0 bin) = true ->
+  react_all c os1 ps_new = ROk st ->
+  set_family (o_arg o) = true -> fold_left (step_abs c (a_id (o_arg o))) os1 None <> None ->
+  self_override c (o_arg o) = false ->
+  verify_num_args c (o_arg o) (o_raw o) st = ROk tt -> occ_values c (o_arg o) (o_raw o) None = Some vals ->
+  exists e, parse_top c0 (bin :: toks) = OErr e /\ e_kind e = EArgumentConflict /\ e_arg e = a_id (o_arg o).
+Proof. exact parse_top_set_repeat_conflict. Qed.
+Print Assumptions C07_top_set_repeat_conflict.
+
+(** overrides in either order of appearance ([overridden] holds when either side declares the relation) *)
+Theorem C07_top_override : forall c0 bin toks os1 o os2 m a,
+  let c := build_self (with_bin c0 bin) in
+  top_class c0 bin toks (os1 ++ o :: os2) -> parse_top c0 (bin :: toks) = OOk m -> In a (c_args c) ->
+  beq (a_id (o_arg o)) (a_id a) = false -> overridden c (o_arg o) (a_id a) = true ->
+  Forall (fun o' => beq (a_id (o_arg o')) (a_id a) = false) os2 ->
+  forall e, fm_get (a_id a) (ms_args m) = Some e -> m_source e = Some SEnv \/ m_source e = Some SDefault.
+Proof. exact parse_top_override. Qed.
+Print Assumptions C07_top_override.
+
+(** defaults only fill absent arguments *)
+Theorem C07_top_default : forall c0 bin toks os m a,
+  let c := build_self (with_bin c0 bin) in
+  top_class c0 bin toks os -> parse_top c0 (bin :: toks) = OOk m -> In a (c_args c) ->
+  fold_left (step_abs c (a_id a)) os None = None ->
+  a_env a = None -> a_default_ifs a = [] -> a_default a <> [] -> a_delim a = None ->
+  exists e, fm_get (a_id a) (ms_args m) = Some e /\ m_raw e = [a_default a] /\ m_source e = Some SDefault.
+Proof. exact parse_top_default. Qed.
+Print Assumptions C07_top_default.
+
+(** SetTrue / SetFalse: the truth value when given, the opposite default when absent *)
+Theorem C07_top_flag : forall c0 bin toks os m a b,
+  let c := build_self (with_bin c0 bin) in
+  top_class c0 bin toks os -> parse_top c0 (bin :: toks) = OOk m -> In a (c_args c) ->
+  a_get_action a = flag_action b -> a_takes_value a = false -> a_delim a = None ->
+  a_default_missing a = [flag_value b] -> a_default a = [flag_value (negb b)] ->
+  (forall os1 o os2, os = os1 ++ o :: os2 -> o_arg o = a -> Forall (unrelated c (a_id a)) os2 ->
+     exists e, fm_get (a_id a) (ms_args m) = Some e /\ m_raw e = [[flag_value b]] /\ m_source e = Some SCmdLine) /\
+  (count_occ (a_id a) os = 0%nat -> a_env a = None -> a_default_ifs a = [] ->
+     exists e, fm_get (a_id a) (ms_args m) = Some e /\ m_raw e = [[flag_value (negb b)]] /\ m_source e = Some SDefault).
+Proof. exact parse_top_flag. Qed.
+Print Assumptions C07_top_flag.
+
+(** ---- the typed getters' view of the result ([get_count_view] / [get_flag_view], ParseProofs/ActionsTop.v: the first
+    stored value read back as the model reads it for [get_one::<u8>] / [get_one::<bool>]) ---- *)
+Theorem C07_top_get_count : forall c0 bin toks os m a,
+  let c := build_self (with_bin c0 bin) in
+  top_class c0 bin toks os -> parse_top c0 (bin :: toks) = OOk m -> In a (c_args c) ->
+  count_flag a -> override_free c (a_id a) ->
+  a_default a = [[48]] -> a_env a = None -> a_default_ifs a = [] -> a_delim a = None ->
+  get_count_view m (a_id a) = Some (N.min (N.of_nat (count_occ (a_id a) os)) 255).
+Proof. exact parse_top_get_count. Qed.
+Print Assumptions C07_top_get_count.
+
+Theorem C07_top_get_flag : forall c0 bin toks os m a b,
+  let c := build_self (with_bin c0 bin) in
+  top_class c0 bin toks os -> parse_top c0 (bin :: toks) = OOk m -> In a (c_args c) ->
+  a_get_action a = flag_action b -> a_takes_value a = false -> a_delim a = None ->
+  a_default_missing a = [flag_value b] -> a_default a = [flag_value (negb b)] ->
+  (forall os1 o os2, os = os1 ++ o :: os2 -> o_arg o = a -> Forall (unrelated c (a_id a)) os2 ->
+     get_flag_view m (a_id a) = Some b) /\
+  (count_occ (a_id a) os = 0%nat -> a_env a = None -> a_default_ifs a = [] ->
+     get_flag_view m (a_id a) = Some (negb b)).
+Proof. exact parse_top_get_flag. Qed.
+Print Assumptions C07_top_get_flag.
